@@ -298,6 +298,14 @@ pub fn build_case(seed: u64, i: usize, thorough: bool) -> Built {
             plan.stall_permille = *r_fault.pick(&[20, 100, 500, 1000]);
             configured.push("clock-stall-random".into());
         }
+        // the wall clock may step backwards (NTP correction, VM resume); nothing in the tool
+        // reads it today, so this only matters if a time box ever moves to it
+        if r_fault.chance(1, 3) {
+            for _ in 0..1 + r_fault.usize(3) {
+                plan.wall_back.push((r_fault.below(60) as i64, 3_600_000_000_000));
+            }
+            configured.push("wall-clock-steps-back".into());
+        }
         // the diagnostics channel of a slow machine may be full as well
         if r_fault.chance(1, 4) {
             plan.stderr_errno = *r_fault.pick(&[libc::ENOSPC, libc::EIO, libc::EPIPE]);
